@@ -363,23 +363,29 @@ func genOp(r *hx.Rand, i int) *hx.Case {
 func genRun(r *hx.Rand, i int) *hx.Case {
 	nops := r.Range(1, 4)
 	kgc := r.Range(nops, 64)
-	bs := r.Range(1, 4)
-	nb := r.Range(1, 6)
+	bs := r.Range(1, 3)
+	nb := r.Range(7, 11) // x 30 ms per read: the source is still producing at the first 200 ms watermark tick
 	base := int64(r.Intn(2000000000))
+	cur := base
 	id := 0
 	var ops []json.RawMessage
 	for b := 0; b < nb; b++ {
-		nraw := r.Range(0, 5)
+		nraw := r.Range(1, 4)
 		raws := [][]evJ{}
 		for k := 0; k < nraw; k++ {
-			ne := r.Intn(3)
-			if r.Chance(1, 2) {
-				ne = 1
+			ne := 1
+			if r.Chance(1, 3) {
+				ne = r.Intn(3)
 			}
 			evs := []evJ{}
 			for e := 0; e < ne; e++ {
 				id++
-				evs = append(evs, evJ{Key: fmt.Sprintf("key-%d", r.Intn(12)), ID: id, Ts: genTs(r, base, 30)})
+				cur += int64(r.Intn(5))
+				t := tsJ{S: cur, N: int32(r.Intn(1000000000))}
+				if r.Chance(1, 5) {
+					t = genTs(r, base, 30) // out of order / pre-epoch / nil
+				}
+				evs = append(evs, evJ{Key: fmt.Sprintf("key-%d", r.Intn(12)), ID: id, Ts: t})
 			}
 			raws = append(raws, evs)
 		}
@@ -389,9 +395,9 @@ func genRun(r *hx.Rand, i int) *hx.Case {
 }
 
 func (eng) Generate(mode, tier string, r *hx.Rand) []*hx.Case {
-	nwm, npipe, nreg, nop, nrun := 500, 200, 500, 150, 60
+	nwm, npipe, nreg, nop, nrun := 500, 200, 500, 150, 12
 	if tier == "thorough" {
-		nwm, npipe, nreg, nop, nrun = 6000, 2500, 6000, 2000, 600
+		nwm, npipe, nreg, nop, nrun = 6000, 2500, 6000, 2000, 80
 	}
 	var cs []*hx.Case
 	for i := 0; i < nwm; i++ {
@@ -673,6 +679,7 @@ type scriptReader struct {
 }
 
 func (s *scriptReader) ReadEvents() ([][]byte, error) {
+	time.Sleep(30 * time.Millisecond) // the source outlasts the runner's first 200 ms watermark tick
 	s.mu.Lock()
 	defer s.mu.Unlock()
 	if s.next >= len(s.batches) {
@@ -695,9 +702,9 @@ func (keyingHandler) ProcessEventBatch(ctx context.Context, req *handlerpb.Proce
 }
 
 // KeyEventBatch is slow on purpose: results arrive after the runner has already queued later placeholders
-// (among them the end-of-input watermark), which is the regime where the stamping point matters.
+// (among them a ticker watermark), which is the regime where the stamping point matters.
 func (keyingHandler) KeyEventBatch(ctx context.Context, events [][]byte) ([][]*handlerpb.KeyedEvent, error) {
-	time.Sleep(2 * time.Millisecond)
+	time.Sleep(25 * time.Millisecond)
 	out := make([][]*handlerpb.KeyedEvent, len(events))
 	for i, raw := range events {
 		var evs []evJ
@@ -760,7 +767,7 @@ func execRun(c *hx.Case, ops []opJ) (*hx.Result, error) {
 		Job:                 &workerstest.DummyJob{},
 		OperatorFactory:     func(senderID string, node *jobpb.NodeIdentity) proto.Operator { return recs[node.Id] },
 		SourceReaderFactory: func(*jobconfigpb.Source) connectors.SourceReader { return reader },
-		EventBatching:       batching.EventBatcherParams{MaxSize: bs},
+		EventBatching:       batching.EventBatcherParams{MaxSize: bs, MaxDelay: time.Millisecond},
 	})
 	ctx, cancel := context.WithCancel(context.Background())
 	defer cancel()
@@ -772,25 +779,56 @@ func execRun(c *hx.Case, ops []opJ) (*hx.Result, error) {
 	if err := sr.HandleAssignSplits([]*workerpb.SourceSplit{{SplitId: "s0", SourceId: "src"}}); err != nil {
 		return nil, err
 	}
-	// the runner broadcasts SourceComplete after the end-of-input watermark and flushes every operator batch
+	// Watermarks come from the runner's 200 ms wall-clock ticker.  Wait for a quiescent snapshot: every keyed
+	// event delivered, every operator's stream ends with a watermark, every operator saw the same number of them.
 	deadline := time.Now().Add(15 * time.Second)
+	streams := make([]string, nops)
+	var obs []any
+	nw := 0
 	for {
-		all := true
-		for _, rc := range order {
+		total, ok := 0, true
+		counts := make([]int, nops)
+		for i, rc := range order {
 			rc.mu.Lock()
-			if rc.complete == 0 {
-				all = false
+		}
+		for i, rc := range order {
+			for _, e := range rc.raw {
+				if strings.HasPrefix(e, "K") {
+					total++
+				} else if strings.HasPrefix(e, "W") {
+					counts[i]++
+				}
 			}
+			if len(rc.raw) == 0 || !strings.HasPrefix(rc.raw[len(rc.raw)-1], "W") || counts[i] != counts[0] {
+				ok = false
+			}
+		}
+		if ok && total == nk {
+			obs = nil
+			for i, rc := range order {
+				streams[i] = hx.CoqList(rc.events, "sev")
+				obs = append(obs, strings.Join(rc.raw, " "))
+			}
+			nw = counts[0]
+		}
+		for _, rc := range order {
 			rc.mu.Unlock()
 		}
-		if all {
+		if ok && total == nk {
 			break
 		}
 		if time.Now().After(deadline) {
-			sr.Stop()
-			return nil, fmt.Errorf("source runner did not deliver SourceComplete to every operator within 15 s")
+			// report what was received: the check flags missing events / watermarks
+			for i, rc := range order {
+				rc.mu.Lock()
+				streams[i] = hx.CoqList(rc.events, "sev")
+				obs = append(obs, strings.Join(rc.raw, " "))
+				rc.mu.Unlock()
+			}
+			tags["no_quiescent_snapshot"] = true
+			break
 		}
-		time.Sleep(200 * time.Microsecond)
+		time.Sleep(500 * time.Microsecond)
 	}
 	sr.Stop()
 	select {
@@ -798,24 +836,8 @@ func execRun(c *hx.Case, ops []opJ) (*hx.Result, error) {
 	case <-time.After(5 * time.Second):
 		return nil, fmt.Errorf("source runner did not stop")
 	}
-	streams := make([]string, nops)
-	var obs []any
-	nw := 0
-	for i, rc := range order {
-		rc.mu.Lock()
-		streams[i] = hx.CoqList(rc.events, "sev")
-		obs = append(obs, strings.Join(rc.raw, " "))
-		if i == 0 {
-			for _, e := range rc.raw {
-				if strings.HasPrefix(e, "W") {
-					nw++
-				}
-			}
-		}
-		rc.mu.Unlock()
-	}
 	if nw > 1 {
-		tags["ticker_watermark_seen"] = true
+		tags["several_watermarks"] = true
 	}
 	term := fmt.Sprintf("RunC %s %s %s", hx.CoqN(uint64(nops)), hx.CoqList(routed, "N * N * pbts"), hx.CoqList(streams, "list sev"))
 	return &hx.Result{Term: term, Nontrivial: nk >= 2, Tags: tagList("run", tags), Observed: obs}, nil
